@@ -16,6 +16,55 @@ GLOBAL_TRUSTED = [
 ]
 
 
+def config_guard(chk, repo):
+    """G0: the analysed MIR is that of the default (dev) profile, which is also what `cargo test` builds.  Behaviour that
+    depends on the build configuration (cfg!(debug_assertions), #[cfg(not(debug_assertions))], target / feature gates, profile
+    overrides of overflow checks or the panic strategy) would make the verdict hold for one configuration only, so its
+    presence in non-test library code is reported.  #[cfg(test)] (and doc/doctest) gates are not library behaviour."""
+    import re
+    n_files = 0
+    allowed = re.compile(r"^\s*(test|doc|doctest)\s*$")
+    pat = re.compile(r"(cfg!|#!?\[\s*cfg|cfg_attr)\s*\(")
+    core, serial, testing, top = "libs/core/src", "libs/serial/src", "libs/testing/src", "src"
+    scope = {"C08": (core, testing, top), "C09": (core, top), "C10": (core, top), "C11": (core, top), "C12": (core, testing), "C13": (core, testing),
+             "C14": (core, testing), "C16": (core, serial), "C17": (core, serial, testing, top), "C18": (core, serial), "C20": (core, serial, testing)}
+    roots = scope.get(chk.pid, (core,))     # the crates whose code the property's verdict depends on
+    for root in roots:
+        base = os.path.join(repo, root)
+        for dp, dn, fs in os.walk(base):
+            for f in sorted(fs):
+                if not f.endswith(".rs"):
+                    continue
+                n_files += 1
+                path = os.path.join(dp, f)
+                text = open(path, errors="replace").read()
+                for i, line in enumerate(text.splitlines(), 1):
+                    code = line.split("//")[0]
+                    for m in pat.finditer(code):
+                        # argument up to the matching parenthesis on this line
+                        depth, j = 1, m.end()
+                        while j < len(code) and depth:
+                            depth += code[j] == "("
+                            depth -= code[j] == ")"
+                            j += 1
+                        arg = code[m.end():j - 1] if depth == 0 else code[m.end():]
+                        if m.group(1) == "cfg_attr":
+                            arg = arg.split(",")[0]
+                        if not allowed.match(arg):
+                            chk.unproven("G0.config", "cfg:%s:%s" % (os.path.relpath(path, repo), arg.strip()[:40]),
+                                         "configuration-dependent code (%s(%s)) in library source: the analysis covers the default dev profile only" % (m.group(1).strip("#![ "), arg.strip()[:60]),
+                                         "%s:%d" % (os.path.relpath(path, repo), i))
+    for man in ("Cargo.toml", "libs/core/Cargo.toml", "libs/serial/Cargo.toml", "libs/testing/Cargo.toml", ".cargo/config.toml"):
+        pth = os.path.join(repo, man)
+        if not os.path.isfile(pth):
+            continue
+        for i, line in enumerate(open(pth, errors="replace").read().splitlines(), 1):
+            code = line.split("#")[0].strip()
+            if re.match(r"^\[profile\.", code) or re.match(r"^(overflow-checks|debug-assertions|panic|rustflags)\s*=", code):
+                chk.unproven("G0.config", "profile:%s:%s" % (man, code[:40]), "build-profile override (%s) in %s: the analysis covers the default dev profile only" % (code[:60], man), "%s:%d" % (man, i))
+    chk.ob("G0.config", "library sources scanned for configuration-dependent code (cfg other than test/doc, profile overrides)", n_files >= 5, key="G0:files", detail="%d files in %s" % (n_files, list(roots)))
+
+
 class Check:
     def __init__(self, pid, tier="quick", level="proof"):
         self.pid = pid
